@@ -15,10 +15,20 @@ _LT = re.compile(r"<'[A-Za-z_]+>")
 _LT2 = re.compile(r"'[A-Za-z_]+(, )?")
 
 
+_NORM = {}
+
+
 def norm(path):
-    """Normalise a def path printed by rustc: drop turbofish segments and lifetimes."""
+    """Normalise a def path printed by rustc: drop turbofish segments and lifetimes (memoised)."""
     if path is None:
         return None
+    r = _NORM.get(path)
+    if r is None:
+        r = _NORM[path] = _norm(path)
+    return r
+
+
+def _norm(path):
     # drop `::<...>` turbofish (balanced)
     out = []
     i = 0
